@@ -200,3 +200,325 @@ Proof.
       unfold ab_units at 2. unfold ab_tail, ab_runs. cbn [fst snd]. rewrite Hul'.
       rewrite layout_snoc_ext. rewrite <- app_assoc in Hd2. exact Hd2.
 Qed.
+
+(* ---- try_set ---- *)
+
+Lemma ones_le_len b BS : SInv b BS -> PInv b BS -> b_ones b <= b_len b.
+Proof.
+  intros (_ & _ & Hok & Htail & _) (Hones & Hrun & _ & Htr & _).
+  pose proof (rones_le_end _ _ _ Hok). lia.
+Qed.
+
+Lemma try_set_spec m b BS s l :
+  SInv b BS -> PInv b BS -> b_len b <= s -> 1 <= l -> s + l < 2 ^ 64 ->
+  exists b' BS', rlb_try_set m b s l = Ok (b', true) /\ SInv b' BS' /\ PInv b' BS' /\
+    snd (b_run b') <> 0 /\ b_len b' = s + l /\
+    (if snd (b_run b) =? 0 then BS' = BS /\ b_run b' = (s, l)
+     else if s =? b_len b then BS' = BS /\ b_run b' = (fst (b_run b), snd (b_run b) + l)
+     else concat BS' = concat BS ++ [b_run b] /\ b_run b' = (s, l)).
+Proof.
+  intros HS HP Hs Hl Hfit. pose proof (ones_le_len b BS HS HP) as Hol.
+  destruct HP as (Hones & Hrun & Hlen & Htr & Hgap).
+  unfold rlb_try_set. replace (s <? b_len b) with false by lia.
+  rewrite usub_ok by (unfold MAXU; lia). cbn [bind].
+  replace (MAXU - l <? s) with false by (unfold MAXU; lia).
+  unfold rlb_set_run_unchecked. replace (l <=? 0) with false by lia.
+  destruct (N.eqb_spec s (b_len b)) as [Heq|Hneq].
+  - (* extend the pending run *)
+    rewrite !uadd_ok by lia. cbn [bind].
+    eexists. exists BS. split; [reflexivity|].
+    split; [exact HS|]. destruct HS as (_ & _ & _ & Htail & _).
+    split; [unfold PInv; cbn [b_len b_ones b_tail b_run fst snd]; repeat split; try lia; assumption|].
+    cbn [b_len b_run fst snd]. split; [lia|]. split; [lia|].
+    destruct (N.eqb_spec (snd (b_run b)) 0) as [Hz|Hnz].
+    + split; [reflexivity|]. f_equal; lia.
+    + split; reflexivity.
+  - (* flush, then a new pending run *)
+    destruct (N.eqb_spec (snd (b_run b)) 0) as [Hz|Hnz].
+    + rewrite flush_noop by assumption. cbn [bind]. rewrite !uadd_ok by lia. cbn [bind].
+      eexists. exists BS. split; [reflexivity|].
+      destruct HS as (H1 & H2 & H3 & Htail & H5 & H6).
+      split; [unfold SInv; cbn [b_tail b_samples b_data]; exact (conj H1 (conj H2 (conj H3 (conj Htail (conj H5 H6)))))|].
+      split.
+      { unfold PInv. cbn [b_len b_ones b_tail b_run fst snd]. repeat split; lia. }
+      cbn [b_len b_run fst snd]. split; [lia|]. split; [reflexivity|]. split; reflexivity.
+    + destruct (flush_spec m b BS HS (conj Hones (conj Hrun (conj Hlen (conj Htr Hgap)))) Hnz)
+        as (b1 & BS1 & Hf & HS1 & Hc & Hl1 & Ho1 & Hr1).
+      rewrite Hf. cbn [bind]. rewrite Ho1. rewrite !uadd_ok by lia. cbn [bind].
+      eexists. exists BS1. split; [reflexivity|].
+      destruct HS1 as (H1 & H2 & H3 & Htail1 & H5 & H6).
+      split; [unfold SInv; cbn [b_tail b_samples b_data]; exact (conj H1 (conj H2 (conj H3 (conj Htail1 (conj H5 H6)))))|].
+      assert (Ht1 : b_tail b1 = b_len b).
+      { rewrite Htail1, Hc, runs_end_from_app. cbn [runs_end_from]. exact Hrun. }
+      split.
+      { unfold PInv. cbn [b_len b_ones b_tail b_run fst snd]. rewrite Hc, rones_app. cbn [rones].
+        repeat split; lia. }
+      cbn [b_len b_run fst snd]. split; [lia|]. split; [reflexivity|]. split; [exact Hc|reflexivity].
+Qed.
+
+(* ---- a sorted list of runs through try_set ---- *)
+
+Fixpoint runs_srt (from : N) (R : list run) : Prop :=
+  match R with
+  | [] => True
+  | r :: t => from <= fst r /\ 1 <= snd r /\ runs_srt (fst r + snd r) t
+  end.
+Lemma runs_srt_sorted from R : runs_srt from R <-> runs_sorted from R.
+Proof.
+  revert from. induction R as [|[s l] t IH]; intros from; cbn [runs_srt runs_sorted fst snd]; [tauto|].
+  rewrite IH. tauto.
+Qed.
+
+Definition try_ops (R : list run) : list bop := map (fun r => BTrySet (fst r) (snd r)) R.
+Definition all_true {A} (l : list A) : list bool := map (fun _ => true) l.
+
+Lemma runs_srt_end from R : runs_srt from R -> from <= runs_end_from from R.
+Proof.
+  revert from. induction R as [|r t IH]; intros from H; cbn [runs_end_from]; [lia|].
+  destruct H as (H0 & H1 & H2). apply IH in H2. lia.
+Qed.
+
+Lemma build_runs m : forall rest b BS,
+  SInv b BS -> PInv b BS -> snd (b_run b) <> 0 ->
+  runs_srt (b_len b) rest -> runs_end_from (b_len b) rest < 2 ^ 64 ->
+  exists b' BS', rlb_run m b (try_ops rest) = Ok (b', all_true rest) /\ SInv b' BS' /\ PInv b' BS' /\
+    snd (b_run b') <> 0 /\
+    concat BS' ++ [b_run b'] = concat BS ++ maximal_from (b_run b) rest /\
+    b_len b' = runs_end_from (b_len b) rest.
+Proof.
+  induction rest as [|[s l] rest IH]; intros b BS HS HP Hp Hsrt Hend.
+  - cbn [try_ops map rlb_run all_true maximal_from runs_end_from]. exists b, BS.
+    split; [reflexivity|]. split; [assumption|]. split; [assumption|]. split; [assumption|]. split; reflexivity.
+  - cbn [runs_srt fst snd] in Hsrt. destruct Hsrt as (Hs & Hl & Hsrt). cbn [runs_end_from fst snd] in Hend.
+    pose proof (runs_srt_end _ _ Hsrt) as Hge.
+    destruct (try_set_spec m b BS s l HS HP Hs Hl ltac:(lia)) as (b1 & BS1 & Ht & HS1 & HP1 & Hp1 & Hl1 & Hcase).
+    replace (snd (b_run b) =? 0) with false in Hcase by lia.
+    cbn [try_ops map rlb_run fst snd]. rewrite Ht. cbn [bind].
+    rewrite <- Hl1 in Hsrt, Hend.
+    destruct (IH b1 BS1 HS1 HP1 Hp1 Hsrt Hend) as (b2 & BS2 & Hr & HS2 & HP2 & Hp2 & Hc2 & Hl2).
+    fold (try_ops rest). rewrite Hr. cbn [bind].
+    exists b2, BS2. split; [reflexivity|]. split; [assumption|]. split; [assumption|]. split; [assumption|].
+    split; [|rewrite Hl2, Hl1; reflexivity].
+    rewrite Hc2. cbn [maximal_from].
+    destruct HP as (_ & Hrun & _).
+    destruct (N.eqb_spec s (b_len b)) as [Heq|Hneq].
+    + destruct Hcase as [-> ->]. replace (fst (b_run b) + snd (b_run b) =? s) with true by lia. reflexivity.
+    + destruct Hcase as [Hc ->]. replace (fst (b_run b) + snd (b_run b) =? s) with false by lia.
+      rewrite Hc, <- app_assoc. reflexivity.
+Qed.
+
+(* ---- facts about the samples ---- *)
+
+Lemma nondec_cons x l : (forall y, hd_error l = Some y -> x <= y) -> nondec l -> nondec (x :: l).
+Proof. intros H1 H2. cbn [nondec]. split; [|exact H2]. destruct l as [|y t]; [trivial|]. apply H1. reflexivity. Qed.
+
+Lemma nondec_le_last l : forall d x, nondec l -> In x l -> x <= last l d.
+Proof.
+  induction l as [|a t IH]; intros d x Hnd Hin; [destruct Hin|].
+  rewrite last_cons_default. destruct Hnd as [Hh Ht]. destruct Hin as [->|Hin].
+  - destruct t as [|y t']; [cbn [last]; lia|].
+    assert (y <= last (y :: t') x) by (apply IH; [assumption|left; reflexivity]). lia.
+  - apply IH; assumption.
+Qed.
+
+Lemma last_map {A B} (f : A -> B) l d : last (map f l) (f d) = f (last l d).
+Proof.
+  revert d. induction l as [|a t IH]; intros d; [reflexivity|].
+  cbn [map]. rewrite !last_cons_default. apply IH.
+Qed.
+
+Section Chain.
+  Variable g : N -> N -> N.
+  Hypothesis g_mono : forall o t b first, o <= t -> runs_ok first t b ->
+    g o t <= g (o + rones b) (runs_end_from t b).
+
+  Lemma annot_nondec : forall BS first o t,
+    o <= t -> runs_ok first t (concat BS) ->
+    nondec (map (fun x => g (ab_ones x) (ab_tail x)) (annot o t BS)).
+  Proof.
+    induction BS as [|b BS IH]; intros first o t Hot Hok; [exact I|].
+    cbn [annot map concat] in *. apply runs_ok_app in Hok. destruct Hok as [Hb Hrest].
+    unfold ab_ones at 1, ab_tail at 1. cbn [fst snd].
+    pose proof (rones_le_end _ _ _ Hb) as Hle.
+    apply nondec_cons.
+    - intros y Hy. destruct BS as [|b' BS']; [discriminate|]. cbn [annot map hd_error] in Hy.
+      injection Hy as <-. unfold ab_ones, ab_tail. cbn [fst snd]. eapply g_mono; eauto.
+    - eapply IH; [|exact Hrest]. lia.
+  Qed.
+End Chain.
+
+Lemma annot_ones_le_tail : forall BS first o t,
+  o <= t -> runs_ok first t (concat BS) -> Forall (fun x => ab_ones x <= ab_tail x) (annot o t BS).
+Proof.
+  induction BS as [|b BS IH]; intros first o t Hot Hok; [constructor|].
+  cbn [annot concat] in *. apply runs_ok_app in Hok. destruct Hok as [Hb Hrest].
+  pose proof (rones_le_end _ _ _ Hb) as Hle.
+  constructor; [exact Hot|]. eapply IH; [|exact Hrest]. lia.
+Qed.
+
+Lemma lenN_blocks_le (BS : list (list run)) :
+  Forall (fun bl : list run => bl <> []) BS -> lenN BS <= lenN (concat BS).
+Proof.
+  induction BS as [|b BS IH]; intros Hall; [unfold lenN; cbn [length concat]; lia|].
+  inversion Hall as [|? ? Hb Hr]; subst. cbn [concat]. rewrite lenN_cons, lenN_app.
+  specialize (IH Hr). destruct b as [|r b']; [congruence|]. rewrite lenN_cons. lia.
+Qed.
+
+Lemma layout_len_le us : Forall (fun x => lenN x <= 64) us -> lenN (layout us) <= 64 * lenN us.
+Proof.
+  induction us as [|u us IH]; intros Hall; [unfold lenN; cbn [length layout]; lia|].
+  inversion Hall as [|? ? Hu Hr]; subst. rewrite lenN_cons. destruct us as [|v us'].
+  - cbn [layout]. unfold lenN at 2. cbn [length]. lia.
+  - rewrite layout_cons2, lenN_app, lenN_pad64 by assumption. specialize (IH Hr). lia.
+Qed.
+
+Lemma push_samples_spec : forall ps v w l,
+  iv_rep v w l -> Forall (fun p => fst p < 2 ^ w /\ snd p < 2 ^ w) ps ->
+  exists v', push_samples v ps = Ok v' /\ iv_rep v' w (l ++ flat_map (fun p => [fst p; snd p]) ps).
+Proof.
+  induction ps as [|[o t] ps IH]; intros v w l Hr Hall.
+  - exists v. cbn [push_samples flat_map]. rewrite app_nil_r. auto.
+  - inversion Hall as [|? ? [Ho Ht] Hrest]; subst. cbn [fst snd] in *. cbn [push_samples].
+    destruct (iv_push_rep_small v w l o Hr Ho) as (v1 & Hp1 & Hr1). rewrite Hp1. cbn [bind].
+    destruct (iv_push_rep_small v1 w _ t Hr1 Ht) as (v2 & Hp2 & Hr2). rewrite Hp2. cbn [bind].
+    destruct (IH v2 w _ Hr2 Hrest) as (v' & Hp & Hr'). exists v'. split; [assumption|].
+    cbn [flat_map fst snd]. rewrite <- !app_assoc in Hr'. exact Hr'.
+Qed.
+
+Lemma flat_pair_samples AB : flat_map (fun p => [fst p; snd p]) (pair_samples AB) = flat_samples AB.
+Proof.
+  unfold pair_samples, flat_samples. induction AB as [|a AB IH]; [reflexivity|].
+  cbn [map flat_map fst snd]. rewrite IH. reflexivity.
+Qed.
+
+Lemma lt_pow2_bit_len x y : x <= y -> y < 2 ^ 64 -> x < 2 ^ bit_len y.
+Proof.
+  intros Hxy Hy. destruct (N.eq_dec y 0) as [->|Hy0].
+  - change (2 ^ bit_len 0) with 2. lia.
+  - pose proof (bit_len_bounds y). lia.
+Qed.
+
+Lemma last_pair_samples AB : forall d : N * N * list run,
+  snd (last (pair_samples AB) (ab_ones d, ab_tail d)) = last (map ab_tail AB) (ab_tail d).
+Proof.
+  induction AB as [|a AB IH]; intros d; [reflexivity|].
+  unfold pair_samples in *. cbn [map]. rewrite !last_cons_default. apply IH.
+Qed.
+
+(* ---- From<RLBuilder> on a flushed builder ---- *)
+
+Lemma rl_from_flushed m b BS L :
+  SInv b BS -> snd (b_run b) = 0 -> b_ones b = rones (concat BS) -> b_len b = L ->
+  b_tail b <= L -> L < 2 ^ 64 -> lenN (concat BS) < 2 ^ 56 ->
+  exists v, rl_from m b = Ok v /\ rl_ok v BS L.
+Proof.
+  intros HS Hr0 Hones HlenL HtL HL Hcnt.
+  pose proof HS as (Hne & Hu & Hok & Htail & Hsam & Hdata).
+  unfold rl_from. rewrite flush_noop by assumption. cbn [bind].
+  pose proof (lenN_blocks_le BS Hne) as Hnb.
+  set (AB := annot 0 0 BS) in *.
+  assert (Htails : map snd (b_samples b) = map ab_tail AB).
+  { rewrite Hsam. unfold pair_samples. rewrite map_map. reflexivity. }
+  assert (Hones' : map fst (b_samples b) = map ab_ones AB).
+  { rewrite Hsam. unfold pair_samples. rewrite map_map. reflexivity. }
+  assert (Hzeros : map (fun s => snd s - fst s) (b_samples b) = map (fun x => ab_tail x - ab_ones x) AB).
+  { rewrite Hsam. unfold pair_samples. rewrite map_map. reflexivity. }
+  rewrite Htails, Hones', Hzeros. unfold rlb_count_zeros, rlb_blocks. rewrite HlenL, Hones.
+  pose proof (rones_le_end _ _ _ Hok) as Hro. rewrite <- Htail in Hro.
+  assert (Hnd_t : nondec (map ab_tail AB)).
+  { apply (annot_nondec (fun o t => t)) with (first := true); [|lia|assumption].
+    intros o t bl first _ Hb. eapply runs_ok_end; eauto. }
+  assert (Hnd_o : nondec (map ab_ones AB)).
+  { apply (annot_nondec (fun o t => o)) with (first := true); [|lia|assumption]. intros; lia. }
+  assert (Hnd_z : nondec (map (fun x => ab_tail x - ab_ones x) AB)).
+  { apply (annot_nondec (fun o t => t - o)) with (first := true); [|lia|assumption].
+    intros o t bl first Hot Hb. pose proof (rones_le_end _ _ _ Hb). lia. }
+  assert (Hot : Forall (fun x => ab_ones x <= ab_tail x) AB).
+  { apply annot_ones_le_tail with (first := true); [lia|assumption]. }
+  (* the three indexes *)
+  assert (Hidx : exists ri si zi,
+     si_new m (map ab_tail AB) L = Ok ri /\ si_new m (map ab_ones AB) (rones (concat BS)) = Ok si /\
+     si_new m (map (fun x => ab_tail x - ab_ones x) AB) (L - rones (concat BS)) = Ok zi /\
+     match BS with [] => si_is_empty ri | _ => si_ok ri (map ab_tail AB) L end /\
+     match BS with [] => si_is_empty si | _ => si_ok si (map ab_ones AB) (rones (concat BS)) end /\
+     (BS = [] -> si_is_empty zi) /\
+     (BS <> [] -> L - rones (concat BS) <> 0 ->
+      si_ok zi (map (fun x => ab_tail x - ab_ones x) AB) (L - rones (concat BS)))).
+  { assert (Hcases : BS = [] \/ BS <> []) by (destruct BS; [left; reflexivity|right; discriminate]).
+    destruct Hcases as [HBS|HBSne].
+    - subst BS. subst AB. cbn [annot map].
+      destruct (si_new_empty m [] L (or_introl eq_refl)) as (ri & -> & Hri).
+      destruct (si_new_empty m [] (rones (concat [])) (or_introl eq_refl)) as (si & -> & Hsi).
+      destruct (si_new_empty m [] (L - rones (concat [])) (or_introl eq_refl)) as (zi & -> & Hzi).
+      exists ri, si, zi. split; [reflexivity|]. split; [reflexivity|]. split; [reflexivity|].
+      split; [assumption|]. split; [assumption|]. split; [intros _; assumption|intros H; congruence].
+    - assert (HF : concat BS <> []) by (intros Hc; apply HBSne; apply concat_nonempty_blocks; assumption).
+      assert (HAB : exists r AB', AB = (0, 0, r) :: AB') by (subst AB; destruct BS; [congruence|cbn [annot]; eauto]).
+      destruct HAB as (r0 & AB' & HAB).
+      pose proof (runs_ok_end_strict _ _ _ HF Hok) as Hend1.
+      assert (Hones1 : 1 <= rones (concat BS)).
+      { destruct (concat BS) as [|rr ?]; [congruence|]. cbn [rones runs_ok] in *. lia. }
+      assert (HlV : forall f : N * N * list run -> N, lenN (map f AB) + 8 < 2 ^ 64).
+      { intros f. rewrite lenN_map. subst AB. rewrite annot_lenN.
+        assert (2 ^ 56 + 8 < 2 ^ 64) by reflexivity. lia. }
+      destruct (si_new_spec m (map ab_tail AB) L) as (ri & Hri & Hriok); try assumption; try lia.
+      { rewrite HAB. discriminate. } { rewrite HAB. reflexivity. } { apply HlV. }
+      destruct (si_new_spec m (map ab_ones AB) (rones (concat BS))) as (si & Hsi & Hsiok); try assumption; try lia.
+      { rewrite HAB. discriminate. } { rewrite HAB. reflexivity. } { apply HlV. }
+      rewrite Hri, Hsi.
+      destruct (N.eq_dec (L - rones (concat BS)) 0) as [Hz|Hz].
+      + destruct (si_new_empty m (map (fun x => ab_tail x - ab_ones x) AB) (L - rones (concat BS)) (or_intror Hz))
+          as (zi & -> & Hzi).
+        exists ri, si, zi.
+        split; [reflexivity|]. split; [reflexivity|]. split; [reflexivity|].
+        split; [destruct BS; [congruence|assumption]|]. split; [destruct BS; [congruence|assumption]|].
+        split; [intros; congruence|intros; congruence].
+      + destruct (si_new_spec m (map (fun x => ab_tail x - ab_ones x) AB) (L - rones (concat BS)))
+          as (zi & Hzi & Hziok); try assumption; try lia.
+        { rewrite HAB. discriminate. } { rewrite HAB. reflexivity. } { apply HlV. }
+        rewrite Hzi. exists ri, si, zi.
+        split; [reflexivity|]. split; [reflexivity|]. split; [reflexivity|].
+        split; [destruct BS; [congruence|assumption]|]. split; [destruct BS; [congruence|assumption]|].
+        split; [intros; congruence|intros; assumption]. }
+  destruct Hidx as (ri & si & zi & -> & -> & -> & Hri & Hsi & Hzi0 & Hzi). cbn [bind].
+  (* the compressed samples *)
+  set (T := last (map ab_tail AB) 0).
+  assert (HT : snd (last (b_samples b) (0, 0)) = T).
+  { rewrite Hsam. exact (last_pair_samples AB (0, 0, [])). }
+  rewrite HT.
+  assert (HTL : T <= L).
+  { subst T.
+    assert (G : forall BS0 first o t, runs_ok first t (concat BS0) ->
+                Forall (fun y => y <= runs_end_from t (concat BS0)) (map ab_tail (annot o t BS0))).
+    { induction BS0 as [|b0 BS0 IH]; intros first o t Hk; [constructor|].
+      cbn [annot map concat] in *. apply runs_ok_app in Hk. destruct Hk as [Hb0 Hrest0].
+      rewrite runs_end_from_app. constructor.
+      - unfold ab_tail. cbn [fst snd]. pose proof (runs_ok_end _ _ _ Hb0). pose proof (runs_ok_end _ _ _ Hrest0). lia.
+      - eapply IH. exact Hrest0. }
+    specialize (G BS true 0 0 Hok). fold AB in G. rewrite <- Htail in G.
+    apply last_Forall; [|lia]. eapply Forall_impl; [|exact G]. cbn beta. intros; lia. }
+  assert (Hw : 1 <= bit_len T <= 64) by (apply bit_len_le_64; lia).
+  destruct (iv_with_capacity_rep (2 * lenN (b_samples b)) (bit_len T) Hw) as (Hcap & Hrep0).
+  rewrite Hcap. cbn [unwrap_opt bind].
+  destruct (push_samples_spec (b_samples b) _ (bit_len T) [] Hrep0) as (sv & Hps & Hsv).
+  { rewrite Hsam. unfold pair_samples. apply Forall_forall. intros p Hp. apply in_map_iff in Hp.
+    destruct Hp as (x & <- & Hx). cbn [fst snd].
+    assert (Hxt : ab_tail x <= T).
+    { subst T. apply nondec_le_last; [assumption|]. apply in_map. assumption. }
+    rewrite Forall_forall in Hot. specialize (Hot x Hx).
+    split; apply lt_pow2_bit_len; lia. }
+  rewrite Hps. cbn [bind]. eexists. split; [reflexivity|].
+  cbn [app] in Hsv. rewrite Hsam, flat_pair_samples in Hsv.
+  pose proof (layout_len_le (map ab_units AB)) as Hdl. rewrite lenN_map in Hdl. subst AB. rewrite annot_lenN in Hdl.
+  assert (Hus : Forall (fun x => lenN x <= 64) (map ab_units (annot 0 0 BS))).
+  { apply Forall_forall. intros x Hx. apply in_map_iff in Hx. destruct Hx as (y & <- & Hy).
+    rewrite Forall_forall in Hu. apply Hu. assumption. }
+  specialize (Hdl Hus).
+  assert (H56 : 64 * 2 ^ 56 + 64 < 2 ^ 64) by reflexivity.
+  assert (H63 : 2 ^ 56 <= 2 ^ 63) by (apply N.pow_le_mono_r; lia).
+  constructor; cbn [rl_len rl_ones rl_rank_index rl_select_index rl_select_zero_index rl_samples rl_data];
+    try assumption; try lia.
+  - unfold data_of. lia.
+  - exists (bit_len T). exact Hsv.
+  - split; assumption.
+Qed.
